@@ -43,7 +43,7 @@ ASSUMPTIONS = [
     'asynchronous exceptions between two bytecodes of a call-free line are not injected',
 ]
 MINIMUMS = {
-    'quick': {'evaluations': 3000, 'fault_fired': 1500, 'crash_points_injected': 500,
+    'quick': {'evaluations': 3000, 'fault_fired': 1500, 'crash_points_injected': 350,
               'crash_points_distinct_lines': 40, 'nested_build_attempts': 40, 'sequences': 30,
               'followup_builds_ok': 2500, 'recursion_errors': 3, 'paths_resolved': 800,
               'crash_no_later_invocation_checked': 300},
